@@ -68,6 +68,10 @@ impl SatSolver for BufferedSatSolver {
     }
 
     fn solve_under_assumptions(&mut self, assumptions: &[Literal]) -> SolvingResult {
+        // an assumption may involve a variable that occurs in no clause: it must be declared by the preamble too
+        assumptions
+            .iter()
+            .for_each(|l| self.n_vars = usize::max(self.n_vars, usize::from(l.var())));
         self.listeners
             .iter()
             .for_each(|l| l.solving_start(self.n_vars(), self.n_clauses));
